@@ -5,6 +5,7 @@ from __future__ import annotations
 import os
 import re
 import subprocess
+import warnings
 from dataclasses import dataclass, field
 from typing import Any, Dict, List, Optional, Sequence, Tuple
 
@@ -487,6 +488,17 @@ def closure(files: List[CFile], fi: int) -> List[int]:
     return out
 
 
+def swallower(f: CFile, item: Any, lang: str) -> Optional[CDef]:
+    """The first string constant declared BEFORE item in f whose value contains a double quote: emitted verbatim it
+    can open a (triple-quoted / raw) string literal that swallows later definitions (part of D2's shape)."""
+    for it in f.items:
+        if it is item:
+            return None
+        if isinstance(it, CDef) and it.kind == "str" and '"' in it.value:
+            return it
+    return None
+
+
 def d2_what(d: CDef, lang: str) -> str:
     return f"const {d.name} = {d.text} ({lang}: needs escaping {CE.needs_escape(lang, d.value)!r})"
 
@@ -499,7 +511,9 @@ def check_python(c: Case, outdir: str, stats: Stats) -> None:
         for fi, f in enumerate(c.files):
             shaped_here = [d for j in closure(c.files, fi) for d in d2_shaped(c.files[j], "py")]
             try:
-                mod = pm.load(f.base + "_bp")
+                with warnings.catch_warnings():
+                    warnings.simplefilter("ignore")  # SyntaxWarning: invalid escape sequence (D2-shaped strings)
+                    mod = pm.load(f.base + "_bp")
             except SyntaxError as e:
                 fn = os.path.basename(e.filename or "")
                 owner = [j for j in closure(c.files, fi) if c.files[j].base + "_bp.py" == fn]
@@ -514,6 +528,10 @@ def check_python(c: Case, outdir: str, stats: Stats) -> None:
                 stats.evaluations += 1
                 stats.count("emit:py")
                 if not hasattr(mod, d.name):
+                    sw = swallower(f, d, "py")
+                    if sw is not None:
+                        stats.known_finding("D2", d2_what(sw, "py") + f": the unescaped quote opens a string that swallows the later definition of {d.name}")
+                        continue
                     raise Violation(f"Python module {f.base}_bp has no attribute {d.name}", signature="py-missing")
                 got = getattr(mod, d.name)
                 if same(d.kind, got, d.value):
@@ -525,6 +543,10 @@ def check_python(c: Case, outdir: str, stats: Stats) -> None:
             for m in f.msgs():
                 cls = getattr(mod, m.msg.name, None)
                 if cls is None:
+                    sw = swallower(f, m, "py")
+                    if sw is not None:
+                        stats.known_finding("D2", d2_what(sw, "py") + f": the unescaped quote opens a string that swallows the later class {m.msg.name}")
+                        continue
                     raise Violation(f"Python module {f.base}_bp has no class {m.msg.name}", signature="py-missing-class")
                 stats.evaluations += 1
                 if cls.BYTES_LENGTH != ref.nbytes(m.msg):
@@ -593,20 +615,28 @@ def check_c(c: Case, fi: int, outdir: str, work: str, stats: Stats) -> None:
                 with open(hp, newline="") as fh:
                     spans[g.base + "_bp.h"] = define_spans(fh.read(), d2_shaped(g, "c"))
         errs = [m for m in (_GCC_LOC.match(l) for l in r.stdout.splitlines()) if m]
-        first: Optional[str] = None
-        ok = bool(errs)
-        for m in errs:
+
+        def where(m: Any) -> Tuple[str, Optional[str]]:
             fn, ln = os.path.basename(m.group("file")), int(m.group("line"))
             if fn in spans:
                 hit = [n for n, (a, b) in spans[fn].items() if a <= ln <= b]
                 if hit:
-                    first = first or hit[0]
-                    continue
+                    return "define", hit[0]
             if fn == os.path.basename(path) and owner.get(ln) is not None and owner[ln].kind == "str" and CE.needs_escape("c", owner[ln].value):
-                first = first or owner[ln].name
-                continue
-            ok = False
-            break
+                return "use", owner[ln].name
+            return "other", None
+
+        # Signature: the FIRST error lies inside the #define of a string that needs escaping (a broken directive leaves
+        # the rest of the header unparsable, so later errors are consequences), or ALL errors lie on driver statements
+        # that read such strings (the header itself was fine; driver statements are independent of each other).
+        first: Optional[str] = None
+        ok = False
+        if errs:
+            k0, n0 = where(errs[0])
+            if k0 == "define":
+                ok, first = True, n0
+            elif k0 == "use" and all(where(m)[0] in ("use", "define") for m in errs):
+                ok, first = True, n0
         if ok and first:
             d = [d for j in closure(c.files, fi) for d in d2_shaped(c.files[j], "c") if d.name == first][0]
             stats.known_finding("D2", "generated C header does not compile: " + d2_what(d, "c") + " -> " + errs[0].group("msg")[:120])
@@ -742,6 +772,10 @@ def check_go(c: Case, fi: int, outdir: str, stats: Stats) -> None:
         stats.evaluations += 1
         stats.count("emit:go")
         if d.name not in decl:
+            sw = swallower(f, d, "go")
+            if sw is not None:
+                stats.known_finding("D2", d2_what(sw, "go") + f": the unescaped quote garbles the tokens up to the declaration of {d.name}")
+                continue
             raise Violation(f"generated Go has no `const {d.name} <type> = ...`", signature="go-missing")
         typ, init = decl[d.name]
         want_type, lo, hi = GO_TYPES[d.kind]
@@ -775,6 +809,9 @@ def check_go(c: Case, fi: int, outdir: str, stats: Stats) -> None:
 # ---------------------------------------------------------------------------
 
 
+AST_KIND = {"int": "IntegerConstant", "bool": "BooleanConstant", "str": "StringConstant"}
+
+
 def _mro_names(e: BaseException) -> List[str]:
     return [k.__name__ for k in type(e).__mro__]
 
@@ -806,8 +843,10 @@ def _run(c: Case, texts: Dict[str, str], work: str, stats: Stats) -> None:
                 stats.count(lab)
             stats.count("const:" + d.kind)
             node = proto.members.get(d.name)
-            if node is None or not hasattr(node, "value") or type(node).__name__ not in ("IntegerConstant", "BooleanConstant", "StringConstant"):
+            if node is None or not hasattr(node, "value") or type(node).__name__ not in AST_KIND.values():
                 raise Violation(f"{f.filename}: constant {d.name} not found in the parsed schema ({node!r})", signature="ast-missing")
+            if type(node).__name__ != AST_KIND[d.kind]:
+                raise Violation(f"{f.filename}: const {d.name} = {d.text} is a {type(node).__name__} in the parsed schema, declared value is of kind {d.kind}", signature="ast-kind")
             if not same(d.kind, node.value, d.value):
                 raise Violation(
                     f"{f.filename}: const {d.name} = {d.text} evaluates to {node.value!r} ({type(node).__name__}); ordinary arithmetic gives {d.value!r}",
@@ -879,9 +918,9 @@ def _run(c: Case, texts: Dict[str, str], work: str, stats: Stats) -> None:
     for fi in range(len(c.files)):
         check_c(c, fi, outs["c"], work, stats)
         check_go(c, fi, outs["go"], stats)
-    if any(d.nontrivial for f in c.files for d in f.consts()):
-        t = texts[c.files[-1].filename]
-        stats.sample({"file": t if len(t) < 1500 else t[:1500] + "...", "expected": {d.name: d.value for d in c.files[-1].consts()}})
+    main = c.files[-1]
+    if len(c.files) >= 2 and sum(1 for d in main.consts() if "mixed_precedence" in d.labels and "ref" in d.labels) >= 1 and any(d.kind == "str" and d.nontrivial for d in main.consts()):
+        stats.sample({"files": {k: (t if len(t) < 1200 else t[:1200] + "...") for k, t in texts.items()}, "expected": {f.proto: {d.name: d.value for d in f.consts()} for f in c.files}})
 
 
 # ---------------------------------------------------------------------------
